@@ -1,4 +1,5 @@
 """C13 - name resolution (C13.R1-R5)."""
+import re
 from .. import mir, tagflow as tf
 from ..core import CheckError
 from . import common
@@ -416,7 +417,32 @@ def r6_fallback_keyed_on_same_lookup(ctx, rule="C13.R6"):
                    "%s does not fall back to the global scope exactly when its own lookup misses locally "
                    "(another test decides, or the fallback uses a different lookup): a SHARED / global "
                    "entry is hidden by an unrelated local name" % fn.name)
+    # `CONSTs are the same objects in every subprogram`: every lookup of a constant's value that the
+    # scoped table (self type Names: inherent methods and trait impls) hands to its callers consults
+    # the module level after the current scope - the plain reader and the ConstLookup used for
+    # `CONST B = A * 2` / `STRING * A` inside a SUB must not disagree
+    m = 0
+    for fn in sorted(_names_methods(prog), key=lambda f: f.id):
+        if "Variant" not in fn.body.locals[0]["ty"] or not fn.body.locals[0]["ty"].startswith("std::option::Option<"):
+            continue
+        called = {mir.callee_path(t).split("::")[-1] for g in [fn] + prog.closures_of(fn) for _b, t in g.body.calls()}
+        if "get_const_value" not in called or "names" not in called:
+            continue
+        m += 1
+        ctx.decide("global_names" in called, rule, "%s:%s:const-value-falls-back" % (rule, _qual(fn)), fn.loc,
+                   "looks in the current scope, then in the module level",
+                   "%s returns the value of a constant from the current scope only: inside a SUB or FUNCTION a "
+                   "module-level CONST does not exist for this lookup (`CONST B = A * 2`, `DIM s AS STRING * A` are "
+                   "rejected there) although plain reads of A find it" % _qual(fn))
+    if m < 1:
+        raise CheckError("%s: no constant-value lookup found on Names" % rule)
     ctx.require(rule, 4)
+
+
+def _qual(fn):
+    tr = (fn.impl or {}).get("trait_ref") or ""
+    t = re.sub(r"<.*", "", tr.split(" as ")[-1]).split("::")[-1].rstrip(">") if tr else ""
+    return ("%s::%s" % (t, fn.name)) if t else fn.name
 
 
 def r7_extended_table(ctx, rule="C13.R7"):
